@@ -49,10 +49,50 @@ def _corpus_job(indices):
                 continue
         a = annotation_check(model, feeds_list)
         rec.update({k: a[k] for k in ("values", "runs", "problems", "unobserved")})
+        if model.functions:
+            from harness.censusjobs import function_annotation_check
+
+            fa = function_annotation_check(model, feeds_list)
+            rec["values"] += fa["values"]
+            rec["function_calls_observed"] = fa["calls"]
+            rec["problems"] += fa["problems"]
+            if fa["unobserved"] and not rec.get("unobserved"):
+                rec["unobserved"] = fa["unobserved"]
         rec["events"] = a["events"] + pp.events
         nbody = sum(1 for n in model.graph.node if n.op_type in ("Loop", "If", "Scan")) + len(model.functions)
         rec["unobserved_scopes"] = nbody
         out.append(rec)
+    return out
+
+
+def _fnpair_job():
+    """@onnx_function call-site pairs (operand dtype / shape differ): function-body annotations per call site."""
+    import jax2onnx
+    from harness import fnjobs
+    from harness.censusjobs import annotation_check, function_annotation_check
+
+    def site(inst=1, kw="none", shp=1, dt=1, scope="top"):
+        return {"inst": inst, "kw": kw, "shp": shp, "dt": dt, "scope": scope}
+
+    out = []
+    for cname, sites in {"dtype_pair": [site(), site(dt=2)], "shape_pair": [site(), site(shp=2)], "same_twice": [site(), site()], "two_objects": [site(), site(inst=2)]}.items():
+        for unique in (False, True):
+            for kind in ("plain", "nnx", "eqx", "free"):
+                cfg = {"unique": unique, "tab": "other_weights" if kind != "free" else "twin", "sites": sites, "sems": 1}
+                rec: dict[str, Any] = {"key": f"fnpair::{cname}::{kind}::unique={unique}", "status": "ok"}
+                try:
+                    fdec, _, specs, kw, xs = fnjobs.build(cfg, kind)
+                    model = jax2onnx.to_onnx(fdec, specs, **kw)
+                except Exception:  # noqa: BLE001
+                    rec["status"] = "export_failed"
+                    out.append(rec)
+                    continue
+                feeds = {vi.name: x for vi, x in zip(model.graph.input, xs)}
+                a = annotation_check(model, [feeds])
+                fa = function_annotation_check(model, [feeds])
+                rec.update({"values": a["values"] + fa["values"], "runs": a["runs"], "problems": a["problems"] + fa["problems"], "unobserved": a["unobserved"] or fa["unobserved"], "events": a["events"],
+                            "function_calls_observed": fa["calls"], "unobserved_scopes": 0})
+                out.append(rec)
     return out
 
 
@@ -100,6 +140,7 @@ def run(ctx: Ctx) -> None:
     rng.shuffle(graphs)
     graphs = graphs[: (500 if ctx.quick else 10**9)]
     tasks += [{"fn": "harness.checks.c08:_pattern_job", "args": {"graphs": c}, "timeout": 3000} for c in [graphs[i::6] for i in range(6)] if c]
+    tasks.append({"fn": "harness.checks.c08:_fnpair_job", "args": {}, "timeout": 3000})
     res = run_tasks(tasks, nworkers=14, timeout=3000)
     events: list[dict[str, Any]] = []
     tid = 0
